@@ -7,7 +7,7 @@
   Two operations with the same name (which 5.2.1.1 / 5.2.2.1 forbid) therefore share their variable definitions
   and usages, and several definitions of one fragment name (5.5.1.1 forbids them) are merged. The clauses below
   are written per operation KEY and per fragment NAME; on documents with unique names they are the clauses of
-  the specification (`*_of_unique` in Props/C06_vars.lean).
+  the specification (`*_per_operation` in Props/C06_vars.lean).
 -/
 import PyGqlModel.Spec.TypedNodes
 namespace PyGql.Validate.Spec
@@ -156,5 +156,21 @@ def usageAllowed (s : SchemaD) (vd : VarDef) (u : Usage) : Prop :=
 /-- **5.8.5 All variable usages are allowed** (as implemented) -/
 def variablesInAllowedPosition (s : SchemaD) (d : Doc) : Prop :=
   ∀ o x u vd, UsedAt s d o x u → varDefFor d o x = some vd → usageAllowed s vd u
+
+/-! ### the same clauses per operation DEFINITION (the wording of the specification); equivalent to the clauses
+    above when operation names are unique (`Props/C06_vars.lean: *_per_operation`) -/
+
+/-- variable `x` is used by the operation definition `df`: in its own directives / selections, or in a fragment
+    reached from one of its spreads -/
+def UsedByOp (d : Doc) (df : Def) (x : String) : Prop :=
+  x ∈ defVarUses df ∨ ∃ f, (∃ g, g ∈ defSpreads df ∧ FragReach d g f) ∧ FragUses d f x
+
+def noUndefinedVariablesPerOp (d : Doc) : Prop :=
+  ∀ df ∈ d.defs, df.opKey?.isSome = true → ∀ x, UsedByOp d df x → x ∈ df.vars.map (·.name)
+def noUnusedVariablesPerOp (d : Doc) : Prop :=
+  ∀ df ∈ d.defs, df.opKey?.isSome = true → ∀ x ∈ df.vars.map (·.name), UsedByOp d df x
+
+/-- operation keys (names, `""` for an anonymous operation) are pairwise distinct -/
+def uniqueOpKeys (d : Doc) : Prop := (d.defs.filterMap Def.opKey?).Nodup
 
 end PyGql.Validate.Spec
